@@ -2,7 +2,8 @@
 from .common import jobs_for
 LEVEL = 'proof'
 LEVEL_TEXT = 'matrix-applied-to-field = explicit divergence/gradient/mean chain, per axis, for a symbolic interior cell and a fully symbolic field incl. ghost values, every sign pattern of u (sign cases split), with and without u_upwind; zero limiter gives zero'
-LEVEL_NOTE = 'numpy model (A2) validated differentially each run; unit-limiter/central identity on uniform grids not yet included; explicit-u_upwind-with-exact-zeros is a recorded finding'
+LEVEL_NOTE = 'numpy model (A2) validated differentially each run; unit-limiter/central identity holds in every interior cell incl. the cells next to the boundary; the TVD correction is pinned for an arbitrary limiter by convectionTvdRHS/limited_flux_form; explicit-u_upwind-with-exact-zeros is a recorded finding'
+NOT_MACHINE_CHECKED = ['the explicit chain for a user-supplied u_upwind with exact zeros on faces where u != 0 (recorded finding)']
 MODULES = ['contracts.ops', 'contracts.canaries']
 TRUSTED = ['A1', 'A2', 'A5', 'A6', 'UF']
 
